@@ -313,6 +313,9 @@ for b in (8, 32):
             reg(f"bank[{base}] storage(17,atomic) status(9)", "quick", specs=[S("storage", 17, atomic=True), S("status", 9)], busword=b, ordering=ordering)
             reg(f"bank[{base}] storage(16) storage(17)", "thorough", specs=[S("storage", 16), S("storage", 17)], busword=b, ordering=ordering)
             reg(f"bank[{base}] status(17,rw) storage(9,wfd)", "thorough", specs=[S("status", 17, read_only=False), S("storage", 9, wfd=True)], busword=b, ordering=ordering)
+            # a software-writable status wider than the bus (write-one-to-clear registers of wide event managers): `r` must carry every written
+            # word in its own slice, in both orderings
+            reg(f"bank[{base}] status(10,rw) storage(2)", "quick", specs=[S("status", 10, read_only=False), S("storage", 2)], busword=b, ordering=ordering)
         reg(f"bank[{base}] storage(fields: a@0:2 pulse, b@3:3 reset5, c@{b}:2) storage(2)", "quick",
             specs=[S("storage", fields=[("a", 2, 0, True, 0), ("b", 3, 3, False, 5), ("c", 2, b, False, 1)]), S("storage", 2)], busword=b, ordering=ordering)
     reg(f"bank[bus{b},big] storage(fields: a@0:2, b@4:3 reset5, c@auto:2 reset2, d@auto:1 pulse) storage(2)", "quick",
